@@ -2,7 +2,9 @@
 then runs generated programs on the real loop and reports what happened.
 
 usage: python -m verifkit.poolworker <state> <cases.json> <out.json>
-states: none | threads_only | process_only | threads_shutdown | process_shutdown | both
+states: none | threads_only | process_only | threads_shutdown | process_shutdown | both |
+        both_then_threads_shutdown | both_then_process_shutdown (every chart is run once with both pools ready, then
+        the pool is shut down and the SAME chart objects are run again)
 """
 import asyncio
 import json
@@ -19,13 +21,16 @@ from verifkit import compile as C  # noqa: E402
 from verifkit import runtime as R  # noqa: E402
 
 
+HISTORY_STATES = ('both_then_threads_shutdown', 'both_then_process_shutdown')
+
+
 def setup(state):
     from ml_pipeline_engine.parallelism import process_pool_registry as P
     from ml_pipeline_engine.parallelism import threads_pool_registry as T
 
-    if state in ('threads_only', 'threads_shutdown', 'process_shutdown', 'both'):
+    if state in ('threads_only', 'threads_shutdown', 'process_shutdown', 'both') + HISTORY_STATES:
         T.auto_init()
-    if state in ('process_only', 'threads_shutdown', 'process_shutdown', 'both'):
+    if state in ('process_only', 'threads_shutdown', 'process_shutdown', 'both') + HISTORY_STATES:
         P.auto_init()
     if state == 'threads_shutdown':
         T.shutdown()
@@ -44,11 +49,9 @@ def main(argv):
     setup(state)
     with open(cases_path) as f:
         cases = json.load(f)
-    results = []
-    for case in cases:
+
+    def run_case(case, comp, chart):
         prog = case['program']
-        comp = C.compile_program(prog, file_dir=moddir, embed=case.get('variant') or {'nodes': {}})
-        chart = comp.build_chart()
         rec = R.RunRec('r0', prog, case.get('variant') or {'x': 0, 'nodes': {}}, loop=None, rec_start_of=comp.rec_start_of)
         rec.file = trace
         R.CURRENT = rec
@@ -79,8 +82,21 @@ def main(argv):
         with open(trace) as f:
             worker = [l for l in f.read().split('\n') if l]
         res['bodies'] = len([e for e in rec.trace if e['kind'] == 'body']) + len(worker)
-        results.append(res)
         R.CURRENT = None
+        return res
+
+    built = []
+    for case in cases:
+        comp = C.compile_program(case['program'], file_dir=moddir, embed=case.get('variant') or {'nodes': {}})
+        built.append((case, comp, comp.build_chart()))
+    results = [run_case(*b) for b in built]
+    if state in HISTORY_STATES:
+        # the SAME chart objects are run again after a pool they may need has been shut down
+        from ml_pipeline_engine.parallelism import process_pool_registry as P
+        from ml_pipeline_engine.parallelism import threads_pool_registry as T
+
+        (T if state == 'both_then_threads_shutdown' else P).shutdown()
+        results = [{'first': r1, 'second': run_case(*b)} for r1, b in zip(results, built)]
     with open(out_path, 'w') as f:
         json.dump(results, f)
     try:
